@@ -27,7 +27,7 @@ CFG = {
                   "FocusOut handler answers with a focus command — else false, Witness F115b), hover_alternates over whole Run-loop histories "
                   "(needs: no terminal FocusIn events — else false, Witness F43; trees draw each widget once), closed on FocusOut / pointer leaving, "
                   "commands_once. Routing over the *drawn* chain between a focus command and the next frame is false (Witness F115a).",
-    "level_note": "Proved: 29 theorems incl. three negative ones from decide-checked witnesses. Validated by correspondence only: that the model equals "
+    "level_note": "Proved: 30 theorems incl. three negative ones from decide-checked witnesses. Validated by correspondence only: that the model equals "
                   "vxfw.go (0 mismatches expected on ~43k quick / ~555k thorough op lines, both streams), Go's sort.Slice stability for <= 12 children, "
                   "uint16 coordinate arithmetic (proved equal to integer arithmetic for sizes < 65536, hit_list_is_under). Modelled not verified: handler "
                   "errors, stack overflow on unbounded refocus recursion (fuel), timing of the 8 ms frame timer (frames are explicit steps).",
